@@ -333,6 +333,17 @@ pub struct MacroIter<R: Reader> {
 impl<R: Reader> MacroIter<R> {
     /// Advance the iterator to the next entry in the `.debug_macro` section.
     pub fn next(&mut self) -> Result<Option<MacroEntry<R>>> {
+        if self.input.is_empty() {
+            return Ok(None);
+        }
+        let result = self.next_entry();
+        if !matches!(result, Ok(Some(_))) {
+            self.input.empty();
+        }
+        result
+    }
+
+    fn next_entry(&mut self) -> Result<Option<MacroEntry<R>>> {
         // DW_MACINFO_* and DW_MACRO_* have the same values, so we can use the same parsing logic.
         let macro_type = DwMacro(self.input.read_u8()?);
         match macro_type {
